@@ -10,7 +10,8 @@ MOD = "matrix.cubemeasure"
 
 
 class _CubeCountsContract(Contract):
-    props = ("C01", "C02", "C09")
+    # counts and bases of the nine pairings feed every proportion, variance, residual and index
+    props = ("C01", "C02", "C03", "C09", "C11", "C12", "C16")
 
     def __init__(self, rk, ck):
         self.rk, self.ck = rk, ck
